@@ -7,6 +7,7 @@ import (
 	"github.com/ava-labs/avalanchego/ids"
 	"github.com/ava-labs/avalanchego/trace"
 	"github.com/ava-labs/avalanchego/utils/logging"
+	"github.com/ava-labs/avalanchego/utils/set"
 )
 
 // ---- harness collaborators: transactions, blocks, the chain index the window reads ancestors from ----
@@ -93,14 +94,20 @@ func (w *c09World) newWindow() {
 	w.tvw = tvw
 }
 
-func c09NewWorld(ntx int) *c09World {
+// c09NewWorld: zeroExpiry selects the corner "every transaction expires at time 0" (its own harness); otherwise
+// expiries are >= 1.
+func c09NewWorld(ntx int, zeroExpiry bool) *c09World {
 	w := &c09World{idx: &c09Index{}}
 	w.window = verifI64("window")
 	verifAssume(w.window >= 0)
 	verifAssume(w.window < 1<<40) // no int64 wrap in ts+window (real windows are seconds to minutes, in ms)
 	for i := 0; i < ntx; i++ {
 		e := verifI64("expiry")
-		verifAssume(e >= 0)
+		if zeroExpiry {
+			verifAssume(e == 0)
+		} else {
+			verifAssume(e >= 1)
+		}
 		w.txs = append(w.txs, &c09Tx{n: i, id: ids.ID{0x77, byte(i + 1)}, exp: e})
 	}
 	gts := verifI64("ts")
@@ -114,9 +121,10 @@ func c09NewWorld(ntx int) *c09World {
 	return w
 }
 
-// c09Lists: the transaction lists a block may carry (indices into the universe). Lists 0..3 are duplicate-free; a list
-// with tx 1 but not tx 0 is only offered once tx 0 has been used (the two transactions are interchangeable).
-var c09Lists = [][]int{{}, {0}, {0, 1}, {1}, {0, 0}, {0, 1, 0}, {1, 0, 0}}
+// c09Lists: the transaction lists a block may carry (indices into the universe). A list with tx 1 but not tx 0 is only
+// offered once tx 0 has been used (the two transactions are interchangeable). The last two repeat a transaction inside
+// the block.
+var c09Lists = [][]int{{}, {0}, {1, 0}, {1}, {0, 0}, {1, 0, 0}}
 
 // addBlock creates a child of block p with a symbolic timestamp consistent with the rules (not before its parent;
 // the child of genesis only has to be >= 0, see C11) whose transactions are all valid at inclusion (C10).
@@ -158,12 +166,25 @@ func (w *c09World) failRepeat(what string, t *c09Tx) {
 }
 
 // verifyStep: the builder's question and the verifier's question for a new child of p.
-func (w *c09World) verifyStep(p int, list []int) bool {
+// question: 0 = both, 1 = builder only, 2 = verifier only.
+func (w *c09World) verifyStep(p int, list []int, question int) bool {
 	ctx := context.Background()
 	b := w.addBlock(p, list)
 	pb := w.idx.blks[p]
 	// builder: BuildBlock asks IsRepeat(parent, nextTime, candidates) and packs only unmarked candidates
-	marker, err := w.tvw.IsRepeat(ctx, pb, b.ts, b.txs)
+	// (the mempool never streams one transaction twice, so lists with in-block repeats are no builder input)
+	inBlockDup := false
+	for i, ti := range list {
+		for _, tj := range list[:i] {
+			if tj == ti {
+				inBlockDup = true
+			}
+		}
+	}
+	marker, err := set.Bits{}, errC09NotFound
+	if !inBlockDup && question != 2 {
+		marker, err = w.tvw.IsRepeat(ctx, pb, b.ts, b.txs)
+	}
 	if err == nil {
 		for i, t := range b.txs {
 			if !marker.Contains(i) {
@@ -172,6 +193,9 @@ func (w *c09World) verifyStep(p int, list []int) bool {
 				}
 			}
 		}
+	}
+	if question == 1 {
+		return false
 	}
 	// verifier
 	if err := w.tvw.VerifyExpiryReplayProtection(ctx, b); err != nil {
@@ -227,14 +251,16 @@ func (w *c09World) restartStep() {
 	verifReach("restart")
 }
 
-// c09History: every history of nOps events over at most maxBlks non-genesis blocks:
+// c09History: every history of at most nOps events over at most maxBlks non-genesis blocks:
 //   verify   a new child of the tip (linear) or of any processing / the last accepted block (forks), with any list;
 //            before it the builder's IsRepeat question for the same parent, time and candidates
 //   accept   a processing child of the last accepted block (siblings and their subtrees are rejected)
 //   restart  processing blocks are forgotten, a new window is populated from the last accepted block
-// The oracle runs inside every verify event, so shorter histories are covered as prefixes.
-func c09History(nOps, maxBlks, ntx int, forks bool, maxRestarts int, finalLists []int) {
-	w := c09NewWorld(ntx)
+// The oracle runs inside every verify event, so shorter histories are covered as prefixes. A history ends with the
+// first block that repeats a transaction of its branch or of itself (it must be rejected; what a node does after
+// rejecting a block is the same history without the attempt).
+func c09History(nOps, maxBlks, ntx int, forks bool, maxRestarts int, zeroExpiry bool) {
+	w := c09NewWorld(ntx, zeroExpiry)
 	restarts := 0
 	used0 := false
 	tip := 0
@@ -276,25 +302,46 @@ func c09History(nOps, maxBlks, ntx int, forks bool, maxRestarts int, finalLists 
 			if forks {
 				p = live[verifChoose("parent", len(live))]
 			}
-			var list []int
-			if finalLists != nil && i == nOps-1 {
-				list = c09Lists[finalLists[verifChoose("final", len(finalLists))]]
-			} else {
-				nl := 3
-				if used0 && ntx > 1 {
-					nl = 4
+			var opts []int
+			for li, l := range c09Lists {
+				ok := true
+				has0 := false
+				for _, ti := range l {
+					if ti >= ntx {
+						ok = false
+					}
+					if ti == 0 {
+						has0 = true
+					}
 				}
-				if ntx == 1 {
-					nl = 2
+				if len(l) > 0 && !has0 && !used0 {
+					ok = false
 				}
-				li := verifChoose("list", nl)
-				if li == 1 || li == 2 {
+				if ok {
+					opts = append(opts, li)
+				}
+			}
+			list := c09Lists[opts[verifChoose("list", len(opts))]]
+			repeats := false
+			for j, ti := range list {
+				if ti == 0 {
 					used0 = true
 				}
-				list = c09Lists[li]
+				if w.inAncestry(p, ti) {
+					repeats = true
+				}
+				for _, tj := range list[:j] {
+					if tj == ti {
+						repeats = true
+					}
+				}
 			}
-			if w.verifyStep(p, list) {
+			if w.verifyStep(p, list, 0) {
 				tip = w.nblks - 1
+			}
+			if repeats {
+				verifReach("repeat-attempt")
+				break
 			}
 		} else if op == opAccept {
 			n := acc[verifChoose("accept", len(acc))]
@@ -312,19 +359,94 @@ func c09History(nOps, maxBlks, ntx int, forks bool, maxRestarts int, finalLists 
 	verifReach("end")
 }
 
-// VerifC09Linear: one chain, any interleaving of verify / accept / restart (accepts lag behind verification by any
-// distance), two transactions.
+// c09Chain: one chain of 1..maxLen blocks without repeats (taken as verified: the verifier is not called for them, see
+// the forks harness for that), any number of them accepted in order with restarts anywhere in between, then a block on
+// the tip that repeats a transaction of the chain or of itself: the builder must mark it, the verifier must reject it.
+// Creating blocks does not touch the window, so "create all, then accept" covers every interleaving of the two.
+func c09Chain(maxLen, ntx, maxRestarts int, zeroExpiry bool) {
+	w := c09NewWorld(ntx, zeroExpiry)
+	n := 1 + verifChoose("len", maxLen)
+	var used [4]bool
+	for i := 1; i <= n; i++ {
+		// fresh lists only: {}, or unused transactions (tx 1 alone only after tx 0 was used: interchangeable)
+		var opts [][]int
+		opts = append(opts, []int{})
+		if !used[0] {
+			opts = append(opts, []int{0})
+			if ntx > 1 && !used[1] {
+				opts = append(opts, []int{1, 0})
+			}
+		} else if ntx > 1 && !used[1] {
+			opts = append(opts, []int{1})
+		}
+		list := opts[verifChoose("list", len(opts))]
+		for _, ti := range list {
+			used[ti] = true
+		}
+		b := w.addBlock(i-1, list)
+		w.idx.blks[b.n], w.idx.live[b.n] = b, true
+		w.nblks++
+	}
+	verifAssume(used[0]) // something to repeat (in-block repeats are offered below as well, but need no empty chains)
+	restarts := 0
+	for {
+		opAccept, opRestart, kinds := -1, -1, 1
+		if w.lastAcc < n {
+			opAccept = kinds
+			kinds++
+		}
+		if restarts < maxRestarts {
+			opRestart = kinds
+			kinds++
+		}
+		op := verifChoose("op", kinds)
+		if op == 0 {
+			break
+		}
+		if op == opAccept {
+			w.acceptStep(w.lastAcc + 1)
+			verifReach("accept")
+		} else if op == opRestart {
+			restarts++
+			w.newWindow()
+			verifReach("restart")
+		}
+	}
+	// the repeating block
+	var opts [][]int
+	opts = append(opts, []int{0}, []int{0, 0})
+	if ntx > 1 {
+		if used[1] {
+			opts = append(opts, []int{1, 0}, []int{1})
+		} else {
+			opts = append(opts, []int{1, 0}, []int{1, 0, 1})
+		}
+	}
+	list := opts[verifChoose("final", len(opts))]
+	verifReach("repeat-attempt")
+	question := 0
+	if zeroExpiry {
+		question = 1 + verifChoose("question", 2) // separate paths, so that each question reports its own finding
+	}
+	if w.verifyStep(n, list, question) {
+		verifFail("harness-oracle-gap") // a repeating block that verified must have been caught by the oracle inside verifyStep
+	}
+	verifReach("end")
+}
+
+// VerifC09Linear: chains with accepted and processing ancestors (accepts lag behind by any distance), restarts, two
+// transactions.
 func VerifC09Linear() {
-	c09History(verifParam("ops", 6, 8), verifParam("maxBlocks", 3, 4), 2, false, verifParam("maxRestarts", 1, 2), nil)
+	c09Chain(verifParam("maxLen", 2, 3), 2, verifParam("maxRestarts", 1, 1), false)
 }
 
-// VerifC09Forks: block trees (a new block may extend any processing block or the last accepted one), accepts reject the
-// other branches; one transaction.
+// VerifC09Forks: block trees, every block goes through the builder and verifier questions (a new block may extend any
+// processing block or the last accepted one), accepts reject the other branches, restarts; one transaction.
 func VerifC09Forks() {
-	c09History(verifParam("ops", 5, 6), verifParam("maxBlocks", 3, 4), 1, true, 0, nil)
+	c09History(verifParam("ops", 4, 5), verifParam("maxBlocks", 3, 4), 1, true, 0, false)
 }
 
-// VerifC09InBlock: after any linear history, a block that lists one transaction twice.
-func VerifC09InBlock() {
-	c09History(verifParam("ops", 4, 5), verifParam("maxBlocks", 3, 4), 2, false, 1, []int{4, 5, 6})
+// VerifC09ExpiryZero: the same chains with one transaction whose expiry is 0 (valid only in blocks with timestamp 0).
+func VerifC09ExpiryZero() {
+	c09Chain(verifParam("maxLen", 2, 3), 1, verifParam("maxRestarts", 1, 1), true)
 }
